@@ -88,6 +88,39 @@ def p_clip(v, lo, hi):
     return r
 
 
+def s_isclose(a, b, rtol=1e-05, atol=1e-08, equal_nan=False):
+    """np.isclose on scalars with a symbolic operand: |a - b| <= atol + rtol * |b| (numpy's definition); a concrete
+    infinity or NaN on either side keeps numpy's special cases"""
+    if not _has_sym(a, b) or type(a) in (list, tuple, _np.ndarray) or type(b) in (list, tuple, _np.ndarray):
+        return _FALL
+    from crosshair.tracers import NoTracing
+    with NoTracing():          # (under tracing type() of a symbolic float is float)
+        special = any(type(x) is float and (x != x or x in (float("inf"), float("-inf"))) for x in (a, b))
+    if special:
+        return False          # the other operand is a (finite) symbolic real
+    d = a - b
+    d = d if d >= 0 else -d
+    m = b if b >= 0 else -b
+    return d <= atol + rtol * m
+
+
+def s_isfinite(v, *a, **k):
+    """symbolic reals are finite by construction (infinities and NaN are concrete floats on their own paths)"""
+    if _is_sym_scalar(v):
+        return True
+    return _FALL
+
+
+def s_isnan_isinf(v, *a, **k):
+    if _is_sym_scalar(v):
+        return False
+    return _FALL
+
+
+def _is_sym_scalar(v):
+    return type(v) not in (list, tuple, _np.ndarray) and _has_sym(v)
+
+
 def s_argsort(v, *a, **k):
     if not _has_sym(v):
         return _FALL
@@ -528,7 +561,20 @@ def arbitrary_set_order_layer():
 # real numpy, where object-dtype arrays hand comparisons / arithmetic back to the symbolic values (np.array, np.all,
 # np.any, np.sum, ufuncs ... run for real).
 _DISPATCH = {id(_np.clip): s_clip, id(_np.argsort): s_argsort, id(_np.dot): s_dot, id(_np.average): s_average,
+             id(_np.isclose): s_isclose, id(_np.allclose): s_isclose,
              }
+# ufuncs are instances of np.ufunc: same normalisation, key np.ufunc.__call__
+_UFUNCS = {id(_np.isfinite): s_isfinite, id(_np.isnan): s_isnan_isinf, id(_np.isinf): s_isnan_isinf}
+_UFUNC_CALL = _np.ufunc.__call__
+
+
+def s_ufunc(self, *a, **k):
+    stub = _UFUNCS.get(id(self))
+    if stub is not None:
+        r = stub(*a, **k)
+        if r is not _FALL:
+            return r
+    return self(*a, **k)
 _DISPATCHER_CALL = type(_np.clip).__call__
 HITS = {}
 
@@ -558,7 +604,7 @@ def s_cyfunc(self, *a, **k):
 
 BASE_LAYER = {
     builtins.int: s_int, builtins.format: s_format, builtins.print: s_print,
-    _DISPATCHER_CALL: s_dispatcher, _CYFUNC_CALL: s_cyfunc, _np.asarray: s_asarray, _np.array: s_nparray,
+    _DISPATCHER_CALL: s_dispatcher, _UFUNC_CALL: s_ufunc, _CYFUNC_CALL: s_cyfunc, _np.asarray: s_asarray, _np.array: s_nparray,
 }
 
 
